@@ -16,6 +16,7 @@ CONSTANTS
   ProbeNos <- MCProbeNos
   KeepRmaxVariant = FALSE
   Pids = {}
+  MaxRepl = 0
   ProbePids <- MCProbePids
 VIEW ViewX
 INVARIANTS TypeOK C07_Contiguous C07_CachedLogEnd C07_IndexSound C08_KeyUnique C08_IdOnce C08_FilterCovers TypeOKX C07_ExactSound
